@@ -67,8 +67,8 @@ structure E2EDom (K V P H M Pat : Type) where
   /-- compare the baseline's results in emission order (false: as multisets, where the order
   depends on a hash iteration order, c9) -/
   orderedBaseline : Bool := true
-  /-- decidable per-program condition of the anchored-traversal theorem, if the domain has one -/
-  /-- 0 = fails, 1 = holds, 2 = not applicable (outside the theorem's domain) -/
+  /-- decidable per-program condition of the anchored-traversal theorem, if the domain has one:
+  0 = fails, 1 = holds, 2 = not applicable (outside the theorem's domain) -/
   programOK : Option (Automaton K P → List Pat → List (Option (List (Constraint K P))) → Nat) := none
   /-- hosts to enumerate exhaustively when the replay hits a model guard (search for a
   concrete failing input on the dumped automaton) -/
